@@ -10,11 +10,11 @@ META = dict(
                "dreye.api.spherical.cartesian_to_spherical", "spherical_to_cartesian", "dreye.api.utils.l2norm"],
     bounds=dict(quick="regular simplex (unit edges, internal assertion unreachable): n = 2..9; affine map and scale invariance: n = 2..5, 2 points; inverse round trip: n = 2..4 "
                       "(exact Cramer inverse); n-sphere: dimension 2..3, 1-2 points, every zero pattern of the coordinates is covered symbolically (the code's special cases are If-terms)",
-                thorough="regular simplex to n = 12, n-sphere dimension 4"),
+                thorough="regular simplex to n = 12"),
     stubs=["sklearn normalize(X,'l1',axis=1) -> rows / sum|x| (zero rows unchanged)", "np.arccos / cos / sin -> angle abstraction of vf/trig.py",
            "np.linalg.inv -> exact Cramer inverse", "np.sqrt / scipy norm -> exact algebraic symbol"],
     assumptions=["real (algebraic) arithmetic", "the stated trigonometric facts only (see vf/trig.py)"],
-    outside=["inverse round trip for n >= 5, n-sphere dimension >= 5 (solver limits)", "accuracy of arccos near +-1", "inputs of rank != 2 for the n-sphere functions"],
+    outside=["inverse round trip for n >= 5, n-sphere dimension >= 4 (solver limits: unknown after 120 s)", "accuracy of arccos near +-1", "inputs of rank != 2 for the n-sphere functions"],
 )
 
 
@@ -135,7 +135,7 @@ def cases(tier, seed):
         for centered in (False, True):
             for l1kind in ("none", "scalar", "vec"):
                 add(f"inverse round trip n={n} centered={centered} L1={l1kind}", "roundtrip_case", n=n, centered=centered, l1kind=l1kind)
-    for d in (2, 3) + ((4,) if big else ()):
+    for d in (2, 3):  # d = 4 was probed in both tiers: z3 returns unknown after 120 s even for one point (stated bound: dimension <= 3)
         for npts in (1, 2):
             add(f"n-sphere d={d} points={npts}", "sphere_case", d=d, npts=npts)
     return C
